@@ -254,16 +254,20 @@ RECURSIVE DropMarked(_,_)
 DropMarked(S, vs) == IF vs = <<>> THEN S
                      ELSE LET S1 == IF WillDie(S, vs[1]) /\ Ok(S) THEN [S EXCEPT !.out = Append(@, "<<obj")] ELSE S
                           IN DropMarked(Dec(S1, vs[1]), Tail(vs))
+\* release a group of values whose relative order of death is not documented (the variables of one scope,
+\* the temporaries of one call expression)
+DropGroup(S1, vals) ==
+   LET \* objects whose every remaining reference is held by this group (aliases included)
+       refs == {vals[i].r : i \in {j \in 1..Len(vals) : IsRef(vals[j])}}
+       n  == Cardinality({r \in refs : S1.heap[r].alive /\ S1.heap[r].rc = Cardinality({i \in 1..Len(vals) : IsRef(vals[i]) /\ vals[i].r = r})})
+   IN IF n <= 1 \/ ~Ok(S1) THEN DropAll(S1, vals)
+      ELSE LET S2 == DropMarked([S1 EXCEPT !.out = Append(@, "<<scope")], vals)
+           IN [S2 EXCEPT !.out = Append(@, ">>scope")]
 PopScope(S) ==
    LET f == Len(S.fr)  k == Len(Top(S).sc)
        vals == [i \in 1..Len(Top(S).sc[k]) |-> Top(S).sc[k][i].v]
        S1 == [S EXCEPT !.fr[f].sc = SubSeq(@, 1, k - 1)]
-       \* objects whose every remaining reference is held by this scope (aliases included)
-       refs == {vals[i].r : i \in {j \in 1..Len(vals) : IsRef(vals[j])}}
-       n  == Cardinality({r \in refs : S1.heap[r].alive /\ S1.heap[r].rc = Cardinality({i \in 1..Len(vals) : IsRef(vals[i]) /\ vals[i].r = r})})
-   IN IF n <= 1 THEN DropAll(S1, vals)
-      ELSE LET S2 == DropMarked([S1 EXCEPT !.out = Append(@, "<<scope")], vals)
-           IN [S2 EXCEPT !.out = Append(@, ">>scope")]
+   IN DropGroup(S1, vals)
 RECURSIVE PopScopesTo(_,_)
 PopScopesTo(S, k) == IF Len(Top(S).sc) <= k THEN S ELSE PopScopesTo(PopScope(S), k)
 
@@ -527,10 +531,10 @@ Eval(e, S) ==
      [] e.k = "call"  -> IF ~HasFn(S, e.f) THEN R(VVoid, Undef(S))
                          ELSE LET a == EvalList(e.a, S)  f == Fn(S, e.f) IN
                               IF ~Ok(a.s) THEN R(VVoid, a.s)
-                              ELSE LET r == Invoke(a.s, f.params, f.body, a.vs, 0, "", f.ret) IN R(r.v, DropAll(r.s, a.vs))
+                              ELSE LET r == Invoke(a.s, f.params, f.body, a.vs, 0, "", f.ret) IN R(r.v, DropGroup(r.s, a.vs))
      [] e.k = "new"   -> LET a == EvalList(e.a, S) IN
                          IF ~Ok(a.s) THEN R(VVoid, a.s)
-                         ELSE LET r == NewObject(a.s, e.c, a.vs, StaticTypes(S, e.a)) IN R(r.v, DropAll(r.s, a.vs))
+                         ELSE LET r == NewObject(a.s, e.c, a.vs, StaticTypes(S, e.a)) IN R(r.v, DropGroup(r.s, a.vs))
      [] e.k = "fld"   -> LET o == Eval(e.o, S) IN
                          IF ~Ok(o.s) THEN R(VVoid, o.s)
                          ELSE IF o.v.r = 0 THEN R(VVoid, Fail(o.s, "null"))
@@ -553,15 +557,15 @@ Eval(e, S) ==
                          ELSE LET ot == TypeOfE(S, e.o, CtxClass(S))
                                   c0 == IF "cls" \in DOMAIN ot THEN ot.cls ELSE Obj(a.s, o.v.r).cls
                                   r == CallMethod(a.s, o.v.r, c0, e.m, a.vs, StaticTypes(S, e.a), TRUE)
-                              IN R(r.v, DropTemp(DropAll(r.s, a.vs), o.v))
+                              IN R(r.v, DropGroup(r.s, a.vs \o <<o.v>>))
      [] e.k = "scall" -> LET a == EvalList(e.a, S) IN
                          IF ~Ok(a.s) THEN R(VVoid, a.s)
-                         ELSE LET r == CallMethod(a.s, 0, e.c, e.m, a.vs, StaticTypes(S, e.a), FALSE) IN R(r.v, DropAll(r.s, a.vs))
+                         ELSE LET r == CallMethod(a.s, 0, e.c, e.m, a.vs, StaticTypes(S, e.a), FALSE) IN R(r.v, DropGroup(r.s, a.vs))
      \* super.m(args) runs the base class's version: no virtual dispatch
      [] e.k = "supercall" -> LET a == EvalList(e.a, S) IN
                          IF ~Ok(a.s) THEN R(VVoid, a.s)
                          ELSE LET r == CallMethod(a.s, This(S), BaseOf(S, CtxClass(S)), e.m, a.vs, StaticTypes(S, e.a), FALSE)
-                              IN R(r.v, DropAll(r.s, a.vs))
+                              IN R(r.v, DropGroup(r.s, a.vs))
      [] OTHER -> R(VVoid, Undef(S))
 
 (* ================================================================== statements *)
